@@ -10,9 +10,30 @@ import (
 
 type IfUnless struct {
 	conditionType string
-	originalTs    map[string][]base.T
-	narrowTs      map[string][]base.T
-	ifNarrowTs    map[string][]base.T
+
+	// type of every tested variable before the conditional
+	originalTs map[string]*base.T
+
+	// type of every tested variable when the conditions seen so far are all
+	// false: what an elsif condition starts from and what else gets
+	elseTs map[string]*base.T
+}
+
+// narrowTest is one `x.nil?`, `x.is_a?(C)` or `x == v` term of a condition.
+type narrowTest struct {
+	object  string
+	classT  *base.T
+	negated bool // !x.nil?
+	noElse  bool // x == v: nothing is known about x when it is false
+}
+
+// narrowCondition is a condition as far as the lookahead understood it.
+type narrowCondition struct {
+	tests    []narrowTest
+	terms    int // terms joined by && / ||, narrowing or not
+	sawAnd   bool
+	sawOr    bool
+	complete bool // the whole condition was read
 }
 
 func NewIfUnless(conditionType string) DynamicEvaluator {
@@ -36,114 +57,224 @@ func (i *IfUnless) convertClassNameToTobject(class string) *base.T {
 	return &t
 }
 
-func (i *IfUnless) setConditionalCtx(
-	class string,
-	object string,
-	ctx context.Context,
-	currentT base.T,
-	isExclamation bool,
-	skipNarrow bool,
-) error {
+// splitByClass divides the variants of currentT into those of class classT
+// and the others. A tested class that is not among the variants narrows to
+// the class itself.
+func (i *IfUnless) splitByClass(currentT *base.T, classT *base.T) (*base.T, *base.T) {
+	var variants []base.T
 
-	classT := i.convertClassNameToTobject(class)
+	switch currentT.GetType() {
+	case base.UNION:
+		variants = currentT.GetVariants()
+	default:
+		variants = []base.T{*currentT}
+	}
 
-	var isNarrow bool
+	var matched, rest []base.T
 
-	switch i.conditionType {
-	case "if":
-		isNarrow = !isExclamation
+	for _, v := range variants {
+		if v.GetObjectClass() == classT.GetObjectClass() {
+			matched = append(matched, v)
+			continue
+		}
 
-	case "unless":
-		isNarrow = isExclamation
+		rest = append(rest, v)
+	}
+
+	if len(matched) == 0 {
+		matched = []base.T{*classT}
+	}
+
+	return base.MakeUnifiedT(matched), base.MakeUnifiedT(rest)
+}
+
+func (i *IfUnless) setNarrowedT(ctx context.Context, object string, t *base.T) {
+	base.SetValueT(
+		ctx.GetFrame(),
+		ctx.GetClass(),
+		ctx.GetMethod(),
+		object,
+		t,
+		ctx.IsDefineStatic,
+	)
+}
+
+// subtractClasses returns the variants of currentT whose class is not among
+// the variants of excludedT.
+func (i *IfUnless) subtractClasses(currentT *base.T, excludedT *base.T) *base.T {
+	restT := currentT
+
+	variants := []base.T{*excludedT}
+	if excludedT.IsUnionType() {
+		variants = excludedT.GetVariants()
+	}
+
+	for _, v := range variants {
+		_, restT = i.splitByClass(restT, &v)
+	}
+
+	return restT
+}
+
+// applyCondition narrows the tested variables for the branch the condition
+// guards and records what they are when the condition is false.
+//
+//	a single test:  the branch gets one side, the false side the other
+//	a && b:         both hold in the branch; when it is false nothing is known,
+//	                unless every term tests the same variable
+//	a || b:         every term fails when it is false; in the branch nothing is
+//	                known, unless every term tests the same variable
+//
+// `unless` swaps the two sides. A chain mixing && and ||, or || and `x == v`,
+// narrows nothing. An `x == v` term narrows only the branch of an `if`: it
+// is not counted when the false side is worked out.
+func (i *IfUnless) applyCondition(ctx context.Context, cond *narrowCondition) {
+	if cond.sawAnd && cond.sawOr {
+		return
+	}
+
+	var tests, exactTests []narrowTest
+
+	for _, test := range cond.tests {
+		if test.noElse && cond.sawOr {
+			return
+		}
+
+		if !test.noElse {
+			exactTests = append(exactTests, test)
+		}
+
+		if test.noElse && i.conditionType == "unless" {
+			continue
+		}
+
+		tests = append(tests, test)
+	}
+
+	if len(tests) == 0 {
+		return
+	}
+
+	// the terms the lookahead could not read as a test
+	hasOtherTerms := cond.terms > len(cond.tests) || !cond.complete
+
+	entryTs := make(map[string]*base.T)
+
+	for _, test := range tests {
+		if _, ok := entryTs[test.object]; ok {
+			continue
+		}
+
+		currentT :=
+			base.GetDynamicValueT(
+				ctx.GetFrame(),
+				ctx.GetClass(),
+				ctx.GetMethod(),
+				test.object,
+			)
+
+		if currentT == nil {
+			continue
+		}
+
+		entryTs[test.object] = currentT
+
+		if _, ok := i.originalTs[test.object]; !ok {
+			i.originalTs[test.object] = currentT
+		}
+	}
+
+	isSameObject := func(tests []narrowTest) bool {
+		for _, test := range tests {
+			if test.object != tests[0].object {
+				return false
+			}
+		}
+
+		return len(tests) > 0
+	}
+
+	// what a test leaves of t when it holds
+	holds := func(test narrowTest, t *base.T) *base.T {
+		matchedT, restT := i.splitByClass(t, test.classT)
+
+		if test.negated {
+			return restT
+		}
+
+		return matchedT
+	}
+
+	whenTrue := make(map[string]*base.T)
+	whenFalse := make(map[string]*base.T)
+
+	for object, entryT := range entryTs {
+		whenTrue[object] = entryT
+		whenFalse[object] = entryT
+	}
+
+	switch cond.sawOr {
+	case false:
+		// every term holds in the branch
+		for _, test := range tests {
+			if t, ok := whenTrue[test.object]; ok {
+				whenTrue[test.object] = holds(test, t)
+			}
+		}
+
+		// one of the terms fails: known only when they are all about one variable
+		if !hasOtherTerms && isSameObject(exactTests) {
+			object := exactTests[0].object
+
+			if entryT, ok := entryTs[object]; ok {
+				allHoldT := entryT
+
+				for _, test := range exactTests {
+					allHoldT = holds(test, allHoldT)
+				}
+
+				whenFalse[object] = i.subtractClasses(entryT, allHoldT)
+			}
+		}
 
 	default:
-		return fmt.Errorf("syntax error")
-	}
-
-	if _, ok := i.originalTs[object]; !ok {
-		i.originalTs[object] = append(i.originalTs[object], currentT)
-	}
-
-	switch isNarrow {
-	case true:
-		if !skipNarrow {
-			i.narrowTs[object] = append(i.narrowTs[object], *classT)
-		}
-
-		i.ifNarrowTs[object] = append(i.ifNarrowTs[object], *classT)
-
-		base.SetValueT(
-			ctx.GetFrame(),
-			ctx.GetClass(),
-			ctx.GetMethod(),
-			object,
-			base.MakeUnifiedT(i.ifNarrowTs[object]),
-			ctx.IsDefineStatic,
-		)
-
-	default:
-		if skipNarrow {
-			break
-		}
-
-		i.ifNarrowTs[object] = append(i.ifNarrowTs[object], *classT)
-
-		origVariants := i.originalTs[object]
-		if len(origVariants) == 0 {
-			break
-		}
-
-		original := origVariants[0]
-
-		var remaining []base.T
-
-		switch original.GetType() {
-		case base.UNION:
-			for _, v := range original.GetVariants() {
-				excluded := false
-
-				for _, ex := range i.ifNarrowTs[object] {
-					if v.GetObjectClass() == ex.GetObjectClass() {
-						excluded = true
-						break
-					}
-				}
-
-				if !excluded {
-					remaining = append(remaining, v)
+		// every term fails on the false side
+		if cond.complete {
+			for _, test := range exactTests {
+				if t, ok := whenFalse[test.object]; ok {
+					whenFalse[test.object] = i.subtractClasses(t, holds(test, t))
 				}
 			}
-
-		default:
-			excluded := false
-
-			for _, ex := range i.ifNarrowTs[object] {
-				if original.GetObjectClass() == ex.GetObjectClass() {
-					excluded = true
-					break
-				}
-			}
-
-			if !excluded {
-				remaining = append(remaining, original)
-			}
 		}
 
-		base.SetValueT(
-			ctx.GetFrame(),
-			ctx.GetClass(),
-			ctx.GetMethod(),
-			object,
-			base.MakeUnifiedT(remaining),
-			ctx.IsDefineStatic,
-		)
+		// one of the terms holds: known only when they are all about one variable
+		if !hasOtherTerms && isSameObject(tests) {
+			object := tests[0].object
 
-		if !skipNarrow {
-			i.narrowTs[object] = remaining
+			if entryT, ok := entryTs[object]; ok {
+				var variants []base.T
+
+				for _, test := range tests {
+					variants = append(variants, *holds(test, entryT))
+				}
+
+				whenTrue[object] = base.MakeUnifiedT(variants)
+			}
 		}
 	}
 
-	return nil
+	for object := range entryTs {
+		trueT, falseT := whenTrue[object], whenFalse[object]
+
+		branchT, elseT := trueT, falseT
+
+		if i.conditionType == "unless" {
+			branchT, elseT = falseT, trueT
+		}
+
+		i.setNarrowedT(ctx, object, branchT)
+		i.elseTs[object] = elseT
+	}
 }
 
 func (i *IfUnless) beforeEval(
@@ -171,10 +302,42 @@ func (i *IfUnless) getBackupContext(
 	ctx context.Context,
 ) ([]func(), error) {
 
+	cond := &narrowCondition{}
+
+	zaoriks, err := i.readCondition(e, p, ctx, cond)
+
+	i.applyCondition(ctx, cond)
+
+	return zaoriks, err
+}
+
+// readCondition reads the condition ahead (on a copy of the parser) and
+// collects its narrowing tests.
+func (i *IfUnless) readCondition(
+	e *Evaluator,
+	p parser.Parser,
+	ctx context.Context,
+	cond *narrowCondition,
+) ([]func(), error) {
+
 	var zaoriks []func()
-	isOr := false
+
+	isOperator := func(t *base.T) bool {
+		switch {
+		case t.IsTargetIdentifier("&&"):
+			cond.sawAnd = true
+		case t.IsTargetIdentifier("||"):
+			cond.sawOr = true
+		default:
+			return false
+		}
+
+		return true
+	}
 
 	for {
+		cond.terms++
+
 		err := i.beforeEval(*e, p, ctx)
 		if err != nil {
 			return zaoriks, err
@@ -202,7 +365,7 @@ func (i *IfUnless) getBackupContext(
 				return zaoriks, err
 			}
 
-			if nextT.IsTargetIdentifiers([]string{"&&", "||"}) {
+			if isOperator(nextT) {
 				continue
 			}
 
@@ -230,7 +393,7 @@ func (i *IfUnless) getBackupContext(
 		}
 
 		// a && b
-		if nextT.IsTargetIdentifiers([]string{"&&", "||"}) {
+		if isOperator(nextT) {
 			continue
 		}
 
@@ -241,7 +404,7 @@ func (i *IfUnless) getBackupContext(
 			}
 
 			// a.empty? && b
-			if nextT.IsTargetIdentifiers([]string{"&&", "||"}) {
+			if isOperator(nextT) {
 				continue
 			}
 
@@ -314,25 +477,6 @@ func (i *IfUnless) getBackupContext(
 			return zaoriks, nil
 		}
 
-		zaoriks =
-			append(
-				zaoriks,
-				func() {
-					base.SetValueT(
-						ctx.GetFrame(),
-						ctx.GetClass(),
-						ctx.GetMethod(),
-						object,
-						t,
-						ctx.IsDefineStatic,
-					)
-				},
-			)
-
-		if nextT.IsTargetIdentifier("||") {
-			isOr = true
-		}
-
 		switch isOpenParentheses {
 		// a.is_a?(Object) &&
 		case true:
@@ -341,14 +485,18 @@ func (i *IfUnless) getBackupContext(
 				return zaoriks, err
 			}
 
-			if !isOr {
-				err = i.setConditionalCtx(class, object, ctx, *t, isExclamation, isEqualMethod)
-				if err != nil {
-					return zaoriks, err
-				}
-			}
+			cond.tests =
+				append(
+					cond.tests,
+					narrowTest{
+						object:  object,
+						classT:  i.convertClassNameToTobject(class),
+						negated: isExclamation,
+						noElse:  isEqualMethod,
+					},
+				)
 
-			if nextT.IsTargetIdentifiers([]string{"&&", "||"}) {
+			if isOperator(nextT) {
 				continue
 			}
 
@@ -356,17 +504,23 @@ func (i *IfUnless) getBackupContext(
 
 		// a == 1 &&
 		default:
-			if !isOr {
-				err = i.setConditionalCtx(class, object, ctx, *t, isExclamation, isEqualMethod)
-				if err != nil {
-					return zaoriks, err
-				}
-			}
+			cond.tests =
+				append(
+					cond.tests,
+					narrowTest{
+						object:  object,
+						classT:  i.convertClassNameToTobject(class),
+						negated: isExclamation,
+						noElse:  isEqualMethod,
+					},
+				)
 
-			if nextT.IsTargetIdentifiers([]string{"&&", "||"}) {
+			if isOperator(nextT) {
 				continue
 			}
 		}
+
+		cond.complete = true
 
 		break
 	}
@@ -384,65 +538,18 @@ func (i *IfUnless) getEndIdentifier(p *parser.Parser) string {
 	}
 }
 
+// narrowing gives every tested variable the type it has when the conditions
+// seen so far are all false.
 func (i *IfUnless) narrowing(ctx context.Context) {
-	for originalKey, originalVariants := range i.originalTs {
-		narrowVariants, ok := i.narrowTs[originalKey]
-		if !ok {
-			base.SetValueT(
-				ctx.GetFrame(),
-				ctx.GetClass(),
-				ctx.GetMethod(),
-				originalKey,
-				base.MakeUnifiedT(originalVariants),
-				ctx.IsDefineStatic,
-			)
-			continue
-		}
+	for object, elseT := range i.elseTs {
+		i.setNarrowedT(ctx, object, elseT)
+	}
+}
 
-		variants := []base.T{}
-
-		for _, originalVariant := range originalVariants {
-			switch originalVariant.GetType() {
-			case base.UNION:
-				for _, variant := range originalVariant.GetVariants() {
-					isContain := false
-
-					for _, narrowVariant := range narrowVariants {
-						if variant.GetObjectClass() == narrowVariant.GetObjectClass() {
-							isContain = true
-						}
-					}
-
-					if isContain {
-						continue
-					}
-
-					variants = append(variants, variant)
-				}
-
-			default:
-				isContain := false
-				for _, narrowVariant := range narrowVariants {
-					if originalVariant.IsEqualObject(&narrowVariant) {
-						isContain = true
-						break
-					}
-				}
-
-				if !isContain {
-					variants = append(variants, originalVariant)
-				}
-			}
-		}
-
-		base.SetValueT(
-			ctx.GetFrame(),
-			ctx.GetClass(),
-			ctx.GetMethod(),
-			originalKey,
-			base.MakeUnifiedT(variants),
-			ctx.IsDefineStatic,
-		)
+// restore gives every tested variable its type from before the conditional.
+func (i *IfUnless) restore(ctx context.Context) {
+	for object, originalT := range i.originalTs {
+		i.setNarrowedT(ctx, object, originalT)
 	}
 }
 
@@ -458,21 +565,18 @@ func (i *IfUnless) Evaluation(
 	// not wipe the state of the enclosing one
 	i = &IfUnless{conditionType: i.conditionType}
 
-	i.originalTs = make(map[string][]base.T)
-	i.narrowTs = make(map[string][]base.T)
-	i.ifNarrowTs = make(map[string][]base.T)
+	i.originalTs = make(map[string]*base.T)
+	i.elseTs = make(map[string]*base.T)
+
+	defer i.restore(ctx)
 
 	isParsingExpr := p.IsParsingExpression()
 
 	lastEvaluatedT := p.GetLastEvaluatedT()
 
-	zaoriks, err := i.getBackupContext(e, *p, ctx)
+	_, err = i.getBackupContext(e, *p, ctx)
 	if err != nil {
 		p.Fatal(ctx, err)
-	}
-
-	for _, zaorik := range zaoriks {
-		defer zaorik()
 	}
 
 	endIdentifier := i.getEndIdentifier(p)
@@ -515,8 +619,6 @@ func (i *IfUnless) Evaluation(
 		if nextT.IsTargetIdentifier("elsif") && i.conditionType == "if" {
 			i.narrowing(ctx)
 
-			i.ifNarrowTs = make(map[string][]base.T)
-
 			_, err := i.getBackupContext(e, *p, ctx)
 			if err != nil {
 				p.Fatal(ctx, err)
@@ -528,7 +630,6 @@ func (i *IfUnless) Evaluation(
 		}
 
 		if nextT.IsTargetIdentifier("else") {
-			i.ifNarrowTs = make(map[string][]base.T)
 			p.SkipNewline()
 
 			nextT, err := p.Read()
